@@ -362,14 +362,14 @@ Section Bounds.
 
   (** * [with_capacity(cautious(len))] + push loop *)
   Lemma cpush_loop_bound a0 a1 b0 b1 e (f : cparser val) n :
-    cbound true a0 a1 b0 b1 f -> 0 < e -> e < U32 ->
+    cbound true a0 a1 b0 b1 f -> 0 < e ->
     cbound false (alpha * (4096 + e) + (a0 + beta + 16 * (alpha * e)))
                  (a0 + beta + a1 + 4 * (alpha * e))
                  (b0 + 8 * e + 4096 + e) (b1 + 2 * e)
            (cpush_loop e f n).
   Proof.
-    intros Hf He0 He1 bs. unfold cpush_loop.
-    destruct (cautious_spec e n He0 He1) as (c0 & Ec & Hc1 & Hc2 & Hc3).
+    intros Hf He0 bs. unfold cpush_loop.
+    destruct (cautious_spec e n He0) as (c0 & Ec & Hc1 & Hc2 & Hc3).
     rewrite Ec. rewrite (mbind_ok (mlift (Ok c0)) _ c0) by reflexivity. cbn [mlift fst snd app].
     rewrite (mbind_ok (emit _) _ tt) by reflexivity. cbn [emit fst snd].
     pose proof (crepeat_vec a0 a1 b0 b1 f e c0 n Hf Hc3 bs) as [Hall Hc].
@@ -388,7 +388,7 @@ Section Bounds.
 
   (** * [Vec<T>::deserialize_reader] *)
   Lemma cdec_vec_bound a0 a1 b0 b1 e u8 (f : cparser val) :
-    (u8 = false -> cbound true a0 a1 b0 b1 f /\ 0 < e /\ e < U32) ->
+    (u8 = false -> cbound true a0 a1 b0 b1 f /\ 0 < e) ->
     cbound true (alpha * (CHUNK + 4096 + e) + (a0 + beta + 16 * (alpha * e)))
                 (a0 + beta + a1 + 4 * (alpha * e) + 4 * alpha)
                 (b0 + 8 * e + CHUNK + 4096 + e) (b1 + 2 * e + 2)
@@ -410,8 +410,8 @@ Section Bounds.
         destruct u8.
         * eapply cbound_weaken; [| | | | |apply (cbound_map true _ _ _ _ (cbulk n) of_bytes (cbulk_bound n ltac:(lia)))];
             unfold K1, B0, B1; try lia; auto.
-        * destruct (Hu eq_refl) as (Hf & He0 & He1).
-          eapply cbound_weaken; [| | | | |apply (cpush_loop_bound a0 a1 b0 b1 e f n Hf He0 He1)];
+        * destruct (Hu eq_refl) as (Hf & He0).
+          eapply cbound_weaken; [| | | | |apply (cpush_loop_bound a0 a1 b0 b1 e f n Hf He0)];
             unfold K0, K1, B0, B1; try lia; auto.
   Qed.
 
